@@ -1,3 +1,4 @@
+import NasimModel.Generated.LayoutOk
 import NasimModel.Model.Env
 /-!
 # C08 — observations are truthful, minimal and complete for the action taken
